@@ -11,65 +11,11 @@ ACTION / GOTO rows, FIRST table.  All conditions are *local* and finite, so
 a per-grammar proof, for all token strings, that the emitted driver is right.
 -/
 import KikiVerif.LR.Snd
+import KikiVerif.LR.Cert
 
 namespace KikiVerif
 namespace Valid
 open LR
-
-abbrev It := Item Nat
-
-instance : DecidableEq It := fun a b => by
-  cases a; cases b
-  simp only [Item.mk.injEq]
-  exact inferInstance
-
-/-- FIRST table entry: terminals and nullability of a nonterminal -/
-abbrev FirstTbl := List (List Nat × Bool)
-
-structure Cert where
-  nT : Nat
-  start : Nat
-  states : List (List It)
-  actions : List (List Action)            -- rows: columns 0..nT-1 terminals, column nT = end of input
-  gotos : List (List (Option Nat))
-  first : FirstTbl
-
-def Cert.act (C : Cert) (s : Nat) (la : Option Nat) : Action :=
-  match la with
-  | none => ((C.actions[s]?).bind (·[C.nT]?)).getD .err
-  | some c => if c < C.nT then ((C.actions[s]?).bind (·[c]?)).getD .err else .err
-
-def Cert.goto (C : Cert) (s B : Nat) : Option Nat := ((C.gotos[s]?).bind (·[B]?)).join
-
-def Cert.items (C : Cert) (s : Nat) : List It := C.states.getD s []
-
-def Cert.delta (C : Cert) (s : Nat) : Sym Nat Nat → Option Nat
-  | .t c => match C.act s (some c) with
-    | .shift t => some t
-    | _ => none
-  | .n B => C.goto s B
-
-def seqTerms (ft : FirstTbl) : List (Sym Nat Nat) → List Nat
-  | [] => []
-  | .t c :: _ => [c]
-  | .n B :: rest => (ft.getD B ([], false)).1 ++ (if (ft.getD B ([], false)).2 then seqTerms ft rest else [])
-
-def seqNullable (ft : FirstTbl) : List (Sym Nat Nat) → Bool
-  | [] => true
-  | .t _ :: _ => false
-  | .n B :: rest => (ft.getD B ([], false)).2 && seqNullable ft rest
-
-/-- FIRST(β a) -/
-def firstSeq (ft : FirstTbl) (β : List (Sym Nat Nat)) (a : Option Nat) : List (Option Nat) :=
-  (seqTerms ft β).map some ++ (if seqNullable ft β then [a] else [])
-
-def mkAuto (C : Cert) : Auto Nat Nat :=
-  { start := C.start
-    items := fun s it => it ∈ C.items s
-    delta := C.delta
-    action := C.act
-    goto := C.goto
-    first := fun β a b => b ∈ firstSeq C.first β a }
 
 /-! ### the checks -/
 
